@@ -231,7 +231,7 @@ theorem span_q (l : List Char) : spanDigits ('"' :: l) = ([], '"' :: l) := by
   simp [spanDigits, List.span, List.span.loop, isDig]
 
 theorem scanFloat_q (l : List Char) : scanFloat ('"' :: l) = none := by
-  unfold scanFloat
+  unfold scanFloat scanMantissa
   simp only [optSign_q, span_q]
   simp
 
